@@ -410,3 +410,16 @@ W.declare_global('dawgie.pl.farm.ARCHIVE', BOOL)
 W.constants = set()
 
 W.methods[('Timing', '__setitem__')] = lambda ex, recv, args, kwargs, line: None      # the timing dict is carried, never read by the scheduler
+
+W.index_hooks = []
+
+
+def _user_index(ex, base, key, line):
+    for h in W.index_hooks:
+        r = h(ex, base, key, line)
+        if r is not None:
+            return r
+    return None
+
+
+W.user_index = _user_index
